@@ -1,0 +1,599 @@
+//go:build verif
+
+// Machine-checked contracts for property C16: "peer and connection bookkeeping
+// matches the live connections" (peer.go, root_peer_list.go, channel.go).
+// Read by govc; this file contains only comments.
+//
+// What is assumed rather than proved (search for "trusted", "funcfield",
+// "iface", "defines"):
+//   * TRUSTED, because the engine cannot execute them: Peer.addConnection and
+//     Peer.removeConnection (the two list primitives; a randomised Go test of
+//     exactly these two contracts on the real code accompanies the report);
+//   * TRUSTED, out of scope (frames only): Channel.updatePeer (C15 state),
+//     Channel.onClosed, Connection.close, Channel.outboundHandshake;
+//   * user callbacks / environment: Peer.onStatusChanged (counted by the ghost
+//     c16nstatus), Channel.dialer, Connectable.Logger, getTChannelParams (pure);
+//   * Peer.onClosedConnRemoved is RootPeerList.onClosedConnRemoved of the list
+//     c16rootOf(p) that created the peer (ghost link, defined in RootPeerList.Add).
+// All names introduced here carry the prefix c16 (preds and ghosts live in one
+// namespace per package and are overwritten silently on a clash).
+
+package tchannel
+
+// ===========================================================================
+// Vocabulary
+// ===========================================================================
+
+// c16nstatus(p): number of times the user's status callback (Peer.onStatusChanged)
+// has been invoked for peer p. c16rootOf(p): the root peer list that created p
+// (its onClosedConnRemoved hook is that list's method).
+//@ ghostfield c16nstatus
+//@ ghostfield c16rmidx
+//@ ghost func c16rootOf(p *Peer) *RootPeerList
+
+// List quantifiers range over ABSOLUTE positions i in the backing array
+// (off(s) <= i < off(s)+len(s), element s[i-off(s)]): the solver then sees
+// plain `select A i` terms, which it can match without arithmetic.
+//@ pred c16InList(s []*Connection, c *Connection) := exists i int :: off(s) <= i && i < off(s) + len(s) && s[i - off(s)] == c
+//@ pred c16NotIn(s []*Connection, c *Connection) := forall i int :: off(s) <= i && i < off(s) + len(s) ==> s[i - off(s)] != c
+//@ pred c16Once(s []*Connection, c *Connection) := forall a int, b int :: off(s) <= a && a < off(s) + len(s) && off(s) <= b && b < off(s) + len(s) &&
+//@        s[a - off(s)] == c && s[b - off(s)] == c ==> a == b
+
+// The two lists of one peer never share a backing array.
+//@ pred c16Sep(p *Peer) := arr(p.inboundConnections) != arr(p.outboundConnections) || arr(p.inboundConnections) == 0 || arr(p.outboundConnections) == 0
+//@ pred c16PeerWired(p *Peer, l *RootPeerList) := p != nil && p.onStatusChanged != nil && p.onClosedConnRemoved != nil && c16rootOf(p) == l
+
+// "no connection and no peer list references it"
+//@ pred c16CanRemove(p *Peer) := len(p.inboundConnections) + len(p.outboundConnections) + p.scCount == 0
+
+//@ pred c16RootOK(l *RootPeerList) := l != nil && l.peersByHostPort != nil && l.channel != nil &&
+//@        (forall k string :: has(l.peersByHostPort, k) ==> l.peersByHostPort[k] != nil)
+// Root list invariant: every entry is a peer created by this list, filed under its own host:port.
+//@ pred c16RootInv(l *RootPeerList) := l != nil && l.peersByHostPort != nil && l.channel != nil &&
+//@        (forall k string :: has(l.peersByHostPort, k) ==> c16PeerWired(l.peersByHostPort[k], l) && l.peersByHostPort[k].hostPort == k && c16Sep(l.peersByHostPort[k]))
+
+// Two-state list relations (old = state at function entry).
+//@ pred c16SameIn(p *Peer) := p.inboundConnections == old(p.inboundConnections) &&
+//@        (forall i int :: off(p.inboundConnections) <= i && i < off(p.inboundConnections) + len(p.inboundConnections) ==>
+//@            p.inboundConnections[i - off(p.inboundConnections)] == old(p.inboundConnections[i - off(p.inboundConnections)]))
+//@ pred c16SameOut(p *Peer) := p.outboundConnections == old(p.outboundConnections) &&
+//@        (forall i int :: off(p.outboundConnections) <= i && i < off(p.outboundConnections) + len(p.outboundConnections) ==>
+//@            p.outboundConnections[i - off(p.outboundConnections)] == old(p.outboundConnections[i - off(p.outboundConnections)]))
+// The list is the old list followed by c: appended in place when there is
+// spare capacity (same backing array, old slots untouched), otherwise append
+// had to reallocate. In the second case
+// only "c is the last entry and the length grew by one" is stated: that the
+// old entries were copied is Go's append semantics, and restating it makes the
+// solver's quantifier instantiation diverge (see report).
+//@ pred c16KeptInPlaceIn(p *Peer) := arr(p.inboundConnections) == old(arr(p.inboundConnections)) && off(p.inboundConnections) == old(off(p.inboundConnections)) &&
+//@        (forall i int :: off(p.inboundConnections) <= i && i < off(p.inboundConnections) + len(p.inboundConnections) - 1 ==> p.inboundConnections[i - off(p.inboundConnections)] == old(p.inboundConnections[i - off(p.inboundConnections)]))
+//@ pred c16MovedToNewArrayIn(p *Peer) := arr(p.inboundConnections) != old(arr(p.inboundConnections)) && arr(p.inboundConnections) != 0
+//@ pred c16AppendedIn(p *Peer, c *Connection) := len(p.inboundConnections) == old(len(p.inboundConnections)) + 1 && p.inboundConnections[len(p.inboundConnections) - 1] == c &&
+//@        (old(len(p.inboundConnections) < cap(p.inboundConnections)) ==> c16KeptInPlaceIn(p)) && (old(len(p.inboundConnections) >= cap(p.inboundConnections)) ==> c16MovedToNewArrayIn(p))
+//@ pred c16KeptInPlaceOut(p *Peer) := arr(p.outboundConnections) == old(arr(p.outboundConnections)) && off(p.outboundConnections) == old(off(p.outboundConnections)) &&
+//@        (forall i int :: off(p.outboundConnections) <= i && i < off(p.outboundConnections) + len(p.outboundConnections) - 1 ==> p.outboundConnections[i - off(p.outboundConnections)] == old(p.outboundConnections[i - off(p.outboundConnections)]))
+//@ pred c16MovedToNewArrayOut(p *Peer) := arr(p.outboundConnections) != old(arr(p.outboundConnections)) && arr(p.outboundConnections) != 0
+//@ pred c16AppendedOut(p *Peer, c *Connection) := len(p.outboundConnections) == old(len(p.outboundConnections)) + 1 && p.outboundConnections[len(p.outboundConnections) - 1] == c &&
+//@        (old(len(p.outboundConnections) < cap(p.outboundConnections)) ==> c16KeptInPlaceOut(p)) && (old(len(p.outboundConnections) >= cap(p.outboundConnections)) ==> c16MovedToNewArrayOut(p))
+// Quantifier-free variant for callees with a precise frame: appended in place
+// (the old slots are then unchanged by the `modifies` clause, which only
+// releases the spare capacity) or moved to a newly allocated array.
+//@ pred c16ListedLastIn(p *Peer, c *Connection) := len(p.inboundConnections) == old(len(p.inboundConnections)) + 1 &&
+//@        p.inboundConnections[len(p.inboundConnections) - 1] == c &&
+//@        (old(len(p.inboundConnections) < cap(p.inboundConnections)) ==> arr(p.inboundConnections) == old(arr(p.inboundConnections)) && off(p.inboundConnections) == old(off(p.inboundConnections))) &&
+//@        (old(len(p.inboundConnections) >= cap(p.inboundConnections)) ==> c16MovedToNewArrayIn(p))
+//@ pred c16ListedLastOut(p *Peer, c *Connection) := len(p.outboundConnections) == old(len(p.outboundConnections)) + 1 &&
+//@        p.outboundConnections[len(p.outboundConnections) - 1] == c &&
+//@        (old(len(p.outboundConnections) < cap(p.outboundConnections)) ==> arr(p.outboundConnections) == old(arr(p.outboundConnections)) && off(p.outboundConnections) == old(off(p.outboundConnections))) &&
+//@        (old(len(p.outboundConnections) >= cap(p.outboundConnections)) ==> c16MovedToNewArrayOut(p))
+// The list is the old list minus ONE occurrence of c, the one at absolute
+// position c16rmidx(p) (a ghost output naming the slot): the old last element now
+// sits in that slot, every other slot is unchanged, and the vacated slot no
+// longer references a connection.
+//@ pred c16RemovedIn(p *Peer, c *Connection) := len(p.inboundConnections) == old(len(p.inboundConnections)) - 1 &&
+//@        arr(p.inboundConnections) == old(arr(p.inboundConnections)) && off(p.inboundConnections) == old(off(p.inboundConnections)) &&
+//@        p.inboundConnections[len(p.inboundConnections)] == nil &&
+//@        off(p.inboundConnections) <= c16rmidx(p) && c16rmidx(p) <= off(p.inboundConnections) + len(p.inboundConnections) &&
+//@        (forall k int :: k == c16rmidx(p) ==> old(p.inboundConnections[k - off(p.inboundConnections)]) == c) &&
+//@        (c16rmidx(p) < off(p.inboundConnections) + len(p.inboundConnections) ==>
+//@            p.inboundConnections[c16rmidx(p) - off(p.inboundConnections)] == old(p.inboundConnections[len(p.inboundConnections) - 1])) &&
+//@        (forall i int :: off(p.inboundConnections) <= i && i < off(p.inboundConnections) + len(p.inboundConnections) && i != c16rmidx(p) ==>
+//@            p.inboundConnections[i - off(p.inboundConnections)] == old(p.inboundConnections[i - off(p.inboundConnections)]))
+//@ pred c16RemovedOut(p *Peer, c *Connection) := len(p.outboundConnections) == old(len(p.outboundConnections)) - 1 &&
+//@        arr(p.outboundConnections) == old(arr(p.outboundConnections)) && off(p.outboundConnections) == old(off(p.outboundConnections)) &&
+//@        p.outboundConnections[len(p.outboundConnections)] == nil &&
+//@        off(p.outboundConnections) <= c16rmidx(p) && c16rmidx(p) <= off(p.outboundConnections) + len(p.outboundConnections) &&
+//@        (forall k int :: k == c16rmidx(p) ==> old(p.outboundConnections[k - off(p.outboundConnections)]) == c) &&
+//@        (c16rmidx(p) < off(p.outboundConnections) + len(p.outboundConnections) ==>
+//@            p.outboundConnections[c16rmidx(p) - off(p.outboundConnections)] == old(p.outboundConnections[len(p.outboundConnections) - 1])) &&
+//@        (forall i int :: off(p.outboundConnections) <= i && i < off(p.outboundConnections) + len(p.outboundConnections) && i != c16rmidx(p) ==>
+//@            p.outboundConnections[i - off(p.outboundConnections)] == old(p.outboundConnections[i - off(p.outboundConnections)]))
+
+// Effect of the root list's "a closed connection was removed from q" hook on
+// the root map of l: q's host:port leaves the map iff the peer filed there has
+// no connection left and no peer list references it; nothing else changes.
+//@ pred c16DropPost(l *RootPeerList, q *Peer) := l.peersByHostPort == old(l.peersByHostPort) &&
+//@        (old(has(l.peersByHostPort, q.hostPort)) && old(c16CanRemove(l.peersByHostPort[q.hostPort])) ==> !has(l.peersByHostPort, q.hostPort)) &&
+//@        (!(old(has(l.peersByHostPort, q.hostPort)) && old(c16CanRemove(l.peersByHostPort[q.hostPort]))) ==>
+//@            (has(l.peersByHostPort, q.hostPort) <==> old(has(l.peersByHostPort, q.hostPort)))) &&
+//@        (forall k string :: k != q.hostPort ==> (has(l.peersByHostPort, k) <==> old(has(l.peersByHostPort, k)))) &&
+//@        (forall k string :: has(l.peersByHostPort, k) ==> l.peersByHostPort[k] == old(l.peersByHostPort[k]))
+
+// ===========================================================================
+// Environment (user callbacks, interfaces)
+// ===========================================================================
+
+// The user's status callback: counted, assumed not to touch the bookkeeping.
+//@ funcfield Peer.onStatusChanged(q *Peer)
+//@   modifies c16nstatus(q)
+//@   ensures c16nstatus(q) == old(c16nstatus(q)) + 1
+
+// Peer.onClosedConnRemoved is always RootPeerList.onClosedConnRemoved of the
+// list that created the peer (RootPeerList.Add); the contract below is the one
+// verified for that method, with l = c16rootOf(q).
+//@ funcfield Peer.onClosedConnRemoved(q *Peer)
+//@   requires c16RootOK(c16rootOf(q))
+//@   modifies c16rootOf(q).peersByHostPort
+//@   ensures c16DropPost(c16rootOf(q), q)
+
+//@ iface Connectable.Logger() (lg Logger)
+//@   modifies nothing
+//@   ensures lg != nil
+
+// ===========================================================================
+// peer.go
+// ===========================================================================
+
+//@ func (p *Peer) getConn(i int) (c *Connection)
+//@   effect nonblocking
+//@   requires 0 <= i && i < len(p.inboundConnections) + len(p.outboundConnections)
+//@   ensures i < len(p.inboundConnections) ==> c == p.inboundConnections[i]
+//@   ensures i >= len(p.inboundConnections) ==> c == p.outboundConnections[i - len(p.inboundConnections)]
+//@   property C16
+
+//@ func (p *Peer) canRemove() (ok bool)
+//@   label removable-iff-unreferenced
+//@   ensures ok <==> c16CanRemove(p)
+//@   property C16
+
+//@ func (p *Peer) addSC()
+//@   modifies p.scCount
+//@   ensures p.scCount == uint32(old(p.scCount) + 1)
+//@   property C16
+
+//@ func (p *Peer) delSC()
+//@   modifies p.scCount
+//@   ensures p.scCount == uint32(old(p.scCount) - 1)
+//@   property C16
+
+//@ func (p *Peer) NumConnections() (inbound int, outbound int)
+//@   ensures inbound == len(p.inboundConnections) && outbound == len(p.outboundConnections)
+//@   property C16
+
+// addConnection is TRUSTED (assumed, not verified): it obtains its list through
+// connectionsFor, which returns &p.inboundConnections or &p.outboundConnections;
+// the engine rejects that merge of interior pointers ("outside subset"), for a
+// symbolic and for a constant direction alike. The contract restates the
+// property: only an ACTIVE connection is listed, at the end of the list for its
+// direction, the other list is untouched and the status callback fires once.
+// (When append has to reallocate, the new backing array is only described as
+// "a different, non-nil array": the engine cannot express that a field
+// modified by a callee under contract points to a NEWLY allocated array.)
+//@ func (p *Peer) addConnection(c *Connection, direction connectionDirection) (err error)
+//@   requires p.onStatusChanged != nil && c16Sep(p)
+//@   modifies p.inboundConnections, p.outboundConnections, c16nstatus(p)
+//@            elems(p.inboundConnections[len(p.inboundConnections):cap(p.inboundConnections)])
+//@            elems(p.outboundConnections[len(p.outboundConnections):cap(p.outboundConnections)])
+//@   ensures c.state != connectionActive ==> err != nil && c16SameIn(p) && c16SameOut(p) && c16nstatus(p) == old(c16nstatus(p))
+//@   ensures c.state == connectionActive ==> err == nil && c16nstatus(p) == old(c16nstatus(p)) + 1
+//@   ensures c.state == connectionActive && direction == inbound ==> c16ListedLastIn(p, c) && c16SameOut(p)
+//@   ensures c.state == connectionActive && direction != inbound ==> c16ListedLastOut(p, c) && c16SameIn(p)
+//@   ensures c16Sep(p)
+//@   property C16
+
+// removeConnection is TRUSTED (assumed, not verified): see the report. The
+// engine models `connsPtr *[]*Connection` as an untracked pointer when the
+// function is verified on its own, and drops the return condition of inlined
+// callees that contain a loop, so neither route can discharge this contract.
+//@ func (p *Peer) removeConnection(connsPtr *[]*Connection, changed *Connection) (found bool)
+//@   effect nonblocking
+//@   trusted
+//@   nilable changed
+//@   modifies *connsPtr, elems(*connsPtr), c16rmidx(p)
+//@   ensures !found ==> old(c16NotIn(*connsPtr, changed)) && *connsPtr == old(*connsPtr) &&
+//@             (forall i int :: off(*connsPtr) <= i && i < off(*connsPtr) + len(*connsPtr) ==>
+//@                 (*connsPtr)[i - off(*connsPtr)] == old((*connsPtr)[i - off(*connsPtr)]))
+//@   ensures found ==> old(c16InList(*connsPtr, changed))
+//@   ensures found ==> len(*connsPtr) == old(len(*connsPtr)) - 1 && arr(*connsPtr) == old(arr(*connsPtr)) &&
+//@             off(*connsPtr) == old(off(*connsPtr)) && cap(*connsPtr) == old(cap(*connsPtr)) &&
+//@             (*connsPtr)[len(*connsPtr)] == nil &&
+//@             off(*connsPtr) <= c16rmidx(p) && c16rmidx(p) <= off(*connsPtr) + len(*connsPtr) &&
+//@             (forall k int :: k == c16rmidx(p) ==> old((*connsPtr)[k - off(*connsPtr)]) == changed) &&
+//@             (c16rmidx(p) < off(*connsPtr) + len(*connsPtr) ==>
+//@                 (*connsPtr)[c16rmidx(p) - off(*connsPtr)] == old((*connsPtr)[len(*connsPtr) - 1])) &&
+//@             (forall i int :: off(*connsPtr) <= i && i < off(*connsPtr) + len(*connsPtr) && i != c16rmidx(p) ==>
+//@                 (*connsPtr)[i - off(*connsPtr)] == old((*connsPtr)[i - off(*connsPtr)]))
+//@   property C16
+
+// A connection that left the active state is taken off the peer (inbound list
+// first, else outbound); both callbacks fire iff something was removed; the
+// peer leaves the root list when that was its last reference.
+//@ func (p *Peer) connectionCloseStateChange(changed *Connection)
+//@   requires c16PeerWired(p, c16rootOf(p)) && c16Sep(p) && c16RootOK(c16rootOf(p))
+//@   modifies p.inboundConnections, p.outboundConnections, elems(p.inboundConnections), elems(p.outboundConnections)
+//@            c16nstatus(p), c16rmidx(p), c16rootOf(p).peersByHostPort
+//@   label active-connection-stays
+//@   ensures changed.state == connectionActive ==> c16SameIn(p) && c16SameOut(p) && c16nstatus(p) == old(c16nstatus(p))
+//@   label unknown-connection-ignored
+//@   ensures old(c16NotIn(p.inboundConnections, changed)) && old(c16NotIn(p.outboundConnections, changed)) ==>
+//@             c16SameIn(p) && c16SameOut(p) && c16nstatus(p) == old(c16nstatus(p))
+//@   label inbound-removed
+//@   ensures changed.state != connectionActive && old(c16InList(p.inboundConnections, changed)) ==>
+//@             c16RemovedIn(p, changed) && c16SameOut(p) && c16nstatus(p) == old(c16nstatus(p)) + 1
+//@   label outbound-removed-callback
+//@   ensures changed.state != connectionActive && old(c16NotIn(p.inboundConnections, changed)) && old(c16InList(p.outboundConnections, changed)) ==>
+//@             c16nstatus(p) == old(c16nstatus(p)) + 1 && len(p.outboundConnections) == old(len(p.outboundConnections)) - 1
+//@   label outbound-removed
+//@   ensures changed.state != connectionActive && old(c16NotIn(p.inboundConnections, changed)) && old(c16InList(p.outboundConnections, changed)) ==>
+//@             c16RemovedOut(p, changed)
+//@   label never-appears-inbound
+//@   ensures old(c16NotIn(p.inboundConnections, changed)) ==> c16SameIn(p)
+//@   label never-appears-outbound
+//@   ensures old(c16NotIn(p.outboundConnections, changed)) ==> c16SameOut(p)
+//@   label gone-from-inbound
+//@   ensures changed.state != connectionActive && old(c16Once(p.inboundConnections, changed)) && old(c16InList(p.inboundConnections, changed)) ==>
+//@             c16NotIn(p.inboundConnections, changed)
+//@   label gone-from-outbound
+//@   ensures changed.state != connectionActive && old(c16Once(p.outboundConnections, changed)) && old(c16NotIn(p.inboundConnections, changed)) &&
+//@             old(c16InList(p.outboundConnections, changed)) ==> c16NotIn(p.outboundConnections, changed)
+//@   label last-connection-drops-peer
+//@   ensures changed.state != connectionActive && (old(c16InList(p.inboundConnections, changed)) || old(c16InList(p.outboundConnections, changed))) &&
+//@             c16CanRemove(p) && old(has(c16rootOf(p).peersByHostPort, p.hostPort)) && old(c16rootOf(p).peersByHostPort[p.hostPort]) == p ==>
+//@             !has(c16rootOf(p).peersByHostPort, p.hostPort)
+//@   label peer-kept-while-referenced
+//@   ensures !c16CanRemove(p) && old(has(c16rootOf(p).peersByHostPort, p.hostPort)) && old(c16rootOf(p).peersByHostPort[p.hostPort]) == p ==>
+//@             has(c16rootOf(p).peersByHostPort, p.hostPort)
+//@   label root-list-otherwise-unchanged
+//@   ensures (forall k string :: k != p.hostPort ==> (has(c16rootOf(p).peersByHostPort, k) <==> old(has(c16rootOf(p).peersByHostPort, k)))) &&
+//@           (forall k string :: has(c16rootOf(p).peersByHostPort, k) ==> c16rootOf(p).peersByHostPort[k] == old(c16rootOf(p).peersByHostPort[k])) &&
+//@           (has(c16rootOf(p).peersByHostPort, p.hostPort) ==> old(has(c16rootOf(p).peersByHostPort, p.hostPort))) &&
+//@           c16rootOf(p).peersByHostPort == old(c16rootOf(p).peersByHostPort)
+//@   label invariants-kept
+//@   ensures c16Sep(p) && c16RootOK(c16rootOf(p)) && (old(c16RootInv(c16rootOf(p))) ==> c16RootInv(c16rootOf(p)))
+//@   property C16
+
+// ===========================================================================
+// root_peer_list.go
+// ===========================================================================
+
+//@ func (l *RootPeerList) Get(hostPort string) (p *Peer, ok bool)
+//@   ensures ok <==> has(l.peersByHostPort, hostPort)
+//@   ensures ok ==> p == l.peersByHostPort[hostPort]
+//@   ensures !ok ==> p == nil
+//@   property C16
+
+//@ func (l *RootPeerList) Add(hostPort string) (p *Peer)
+//@   requires c16RootInv(l) && hostPort != ""
+//@   modifies l.peersByHostPort
+//@   defines !old(has(l.peersByHostPort, hostPort)) ==> c16rootOf(p) == l
+//   (second defines: "peers already in the map are not the newly allocated one" --
+//    a consequence of heap well-typedness that the engine loses for map values
+//    read under a quantifier, see report)
+//@   defines forall k string :: old(has(l.peersByHostPort, k)) ==> !fresh(old(l.peersByHostPort[k]))
+//@   ensures l.peersByHostPort == old(l.peersByHostPort)
+//@   ensures p != nil && has(l.peersByHostPort, hostPort) && l.peersByHostPort[hostPort] == p
+//@   label existing-peer-reused
+//@   ensures old(has(l.peersByHostPort, hostPort)) ==> p == old(l.peersByHostPort[hostPort])
+//@   label new-peer-is-empty
+//@   ensures !old(has(l.peersByHostPort, hostPort)) ==> fresh(p) && p.hostPort == hostPort && p.scCount == 0 &&
+//@             p.inboundConnections == nil && p.outboundConnections == nil &&
+//@             len(p.inboundConnections) == 0 && len(p.outboundConnections) == 0
+//@   label other-entries-untouched
+//@   ensures forall k string :: k != hostPort ==> (has(l.peersByHostPort, k) <==> old(has(l.peersByHostPort, k))) &&
+//@             l.peersByHostPort[k] == old(l.peersByHostPort[k])
+//@   ensures c16RootInv(l)
+//@   property C16
+
+//@ func (l *RootPeerList) GetOrAdd(hostPort string) (p *Peer)
+//@   requires c16RootInv(l) && hostPort != ""
+//@   modifies l.peersByHostPort
+//@   defines !old(has(l.peersByHostPort, hostPort)) ==> c16rootOf(p) == l
+//@   ensures l.peersByHostPort == old(l.peersByHostPort)
+//@   ensures p != nil && has(l.peersByHostPort, hostPort) && l.peersByHostPort[hostPort] == p
+//@   label existing-peer-reused
+//@   ensures old(has(l.peersByHostPort, hostPort)) ==> p == old(l.peersByHostPort[hostPort])
+//@   label new-peer-is-empty
+//@   ensures !old(has(l.peersByHostPort, hostPort)) ==> fresh(p) && p.hostPort == hostPort && p.scCount == 0 &&
+//@             p.inboundConnections == nil && p.outboundConnections == nil &&
+//@             len(p.inboundConnections) == 0 && len(p.outboundConnections) == 0
+//@   label other-entries-untouched
+//@   ensures forall k string :: k != hostPort ==> (has(l.peersByHostPort, k) <==> old(has(l.peersByHostPort, k))) &&
+//@             l.peersByHostPort[k] == old(l.peersByHostPort[k])
+//@   ensures c16RootInv(l)
+//@   property C16
+
+// "when a peer's last connection is removed while no peer list references it
+// the peer leaves the root list" -- and only then.
+//@ func (l *RootPeerList) onClosedConnRemoved(peer *Peer)
+//@   requires c16RootOK(l)
+//@   modifies l.peersByHostPort
+//@   label peer-leaves-iff-unreferenced
+//@   ensures c16DropPost(l, peer)
+//@   property C16
+
+// ===========================================================================
+// channel.go
+// ===========================================================================
+
+//@ pred c16ChanOK(ch *Channel) := ch.peers != nil && c16RootInv(ch.peers.parent) && ch.mutable.conns != nil && ch.log != nil
+//@ pred c16ConnsNonNil(ch *Channel) := forall k int :: has(ch.mutable.conns, k) ==> ch.mutable.conns[k] != nil
+//@ pred c16ChanOpen(ch *Channel) := ch.mutable.state == ChannelClient || ch.mutable.state == ChannelListening
+
+// Out of scope for C16, assumed (TRUSTED): score / heap maintenance (C15) and
+// the test-only onUpdate hook touch none of the state C16 talks about
+// (Peer.inboundConnections/outboundConnections/scCount, RootPeerList map,
+// Channel.mutable.conns, the ghost counters); the fields they do write
+// (peerScore.score/index/order, peerHeap.peerScores) are read by no C16 contract.
+//@ func (ch *Channel) updatePeer(p *Peer)
+//@   trusted
+//@   modifies nothing
+//@   property C16
+
+// Out of scope for C16, assumed (TRUSTED): unregisters the channel from the
+// process-wide channelMap (only reachable through that global) and closes ch.closed.
+//@ func (ch *Channel) onClosed()
+//@   trusted
+//@   modifies channelMap
+//@   property C16
+
+// "the channel tracks exactly its not-yet-closed connections": a connection is
+// entered iff it is active and the channel still accepts connections ...
+//@ func (ch *Channel) addConnection(c *Connection, direction connectionDirection) (added bool)
+//@   requires ch.mutable.conns != nil
+//@   modifies ch.mutable.conns
+//@   label tracked-iff-active-and-open
+//@   ensures added <==> (c.state == connectionActive && c16ChanOpen(ch))
+//@   label tracked-under-its-id
+//@   ensures added ==> has(ch.mutable.conns, c.connID) && ch.mutable.conns[c.connID] == c
+//@   label rejected-leaves-map-alone
+//@   ensures !added ==> (has(ch.mutable.conns, c.connID) <==> old(has(ch.mutable.conns, c.connID))) &&
+//@             ch.mutable.conns[c.connID] == old(ch.mutable.conns[c.connID])
+//@   label other-connections-untouched
+//@   ensures forall k int :: k != c.connID ==> (has(ch.mutable.conns, k) <==> old(has(ch.mutable.conns, k))) &&
+//@             ch.mutable.conns[k] == old(ch.mutable.conns[k])
+//@   ensures ch.mutable.conns == old(ch.mutable.conns) && (old(c16ConnsNonNil(ch)) ==> c16ConnsNonNil(ch))
+//@   property C16
+
+// ... and leaves only when it is fully closed.
+//@ func (ch *Channel) removeClosedConn(c *Connection)
+//@   modifies ch.mutable.conns
+//@   label closed-untracked
+//@   ensures c.state == connectionClosed ==> !has(ch.mutable.conns, c.connID)
+//@   label not-yet-closed-still-tracked
+//@   ensures c.state != connectionClosed ==> (has(ch.mutable.conns, c.connID) <==> old(has(ch.mutable.conns, c.connID))) &&
+//@             ch.mutable.conns[c.connID] == old(ch.mutable.conns[c.connID])
+//@   label other-connections-untouched
+//@   ensures forall k int :: k != c.connID ==> (has(ch.mutable.conns, k) <==> old(has(ch.mutable.conns, k))) &&
+//@             ch.mutable.conns[k] == old(ch.mutable.conns[k])
+//@   ensures ch.mutable.conns == old(ch.mutable.conns) && (old(c16ConnsNonNil(ch)) ==> c16ConnsNonNil(ch))
+//@   property C16
+
+//@ func (ch *Channel) getMinConnectionState() (s connectionState)
+//@   effect nonblocking
+//@   requires c16ConnsNonNil(ch)
+//@   modifies nothing
+//@   property C16
+
+//@ func (c *Connection) readState() (s connectionState)
+//@   ensures s == c.state
+//@   property C16
+
+//@ func (c *Connection) IsActive() (ok bool)
+//@   ensures ok <==> c.state == connectionActive
+//@   property C16
+
+// The connection is listed under hostPort's peer (created on demand in the
+// root list) for its direction, iff it is active.
+//@ func (ch *Channel) addConnectionToPeer(hostPort string, c *Connection, direction connectionDirection)
+//@   requires c16ChanOK(ch) && c.log != nil && hostPort != ""
+//@   modifies ch.peers.parent.peersByHostPort, c16nstatus(ch.peers.parent.peersByHostPort[hostPort])
+//@            ch.peers.parent.peersByHostPort[hostPort].inboundConnections, ch.peers.parent.peersByHostPort[hostPort].outboundConnections
+//@            elems(ch.peers.parent.peersByHostPort[hostPort].inboundConnections[len(ch.peers.parent.peersByHostPort[hostPort].inboundConnections):cap(ch.peers.parent.peersByHostPort[hostPort].inboundConnections)])
+//@            elems(ch.peers.parent.peersByHostPort[hostPort].outboundConnections[len(ch.peers.parent.peersByHostPort[hostPort].outboundConnections):cap(ch.peers.parent.peersByHostPort[hostPort].outboundConnections)])
+//@   label peer-exists-afterwards
+//@   ensures has(ch.peers.parent.peersByHostPort, hostPort) && ch.peers.parent.peersByHostPort == old(ch.peers.parent.peersByHostPort) &&
+//@           (old(has(ch.peers.parent.peersByHostPort, hostPort)) ==> ch.peers.parent.peersByHostPort[hostPort] == old(ch.peers.parent.peersByHostPort[hostPort]))
+//@   label other-peers-keep-their-entry
+//@   ensures forall k string :: k != hostPort ==> (has(ch.peers.parent.peersByHostPort, k) <==> old(has(ch.peers.parent.peersByHostPort, k))) &&
+//@             ch.peers.parent.peersByHostPort[k] == old(ch.peers.parent.peersByHostPort[k])
+//@   label listed-inbound
+//@   ensures c.state == connectionActive && direction == inbound && old(has(ch.peers.parent.peersByHostPort, hostPort)) ==>
+//@             c16AppendedIn(ch.peers.parent.peersByHostPort[hostPort], c) && c16SameOut(ch.peers.parent.peersByHostPort[hostPort]) &&
+//@             c16nstatus(ch.peers.parent.peersByHostPort[hostPort]) == old(c16nstatus(ch.peers.parent.peersByHostPort[hostPort])) + 1
+//@   label listed-outbound
+//@   ensures c.state == connectionActive && direction != inbound && old(has(ch.peers.parent.peersByHostPort, hostPort)) ==>
+//@             c16AppendedOut(ch.peers.parent.peersByHostPort[hostPort], c) && c16SameIn(ch.peers.parent.peersByHostPort[hostPort]) &&
+//@             c16nstatus(ch.peers.parent.peersByHostPort[hostPort]) == old(c16nstatus(ch.peers.parent.peersByHostPort[hostPort])) + 1
+//@   label first-connection-of-new-peer
+//@   ensures c.state == connectionActive && !old(has(ch.peers.parent.peersByHostPort, hostPort)) ==>
+//@             fresh(ch.peers.parent.peersByHostPort[hostPort]) && ch.peers.parent.peersByHostPort[hostPort].hostPort == hostPort &&
+//@             len(ch.peers.parent.peersByHostPort[hostPort].inboundConnections) + len(ch.peers.parent.peersByHostPort[hostPort].outboundConnections) == 1 &&
+//@             (direction == inbound ==> len(ch.peers.parent.peersByHostPort[hostPort].inboundConnections) == 1 &&
+//@                                       ch.peers.parent.peersByHostPort[hostPort].inboundConnections[0] == c &&
+//@                                       ch.peers.parent.peersByHostPort[hostPort].inboundConnections[len(ch.peers.parent.peersByHostPort[hostPort].inboundConnections) - 1] == c) &&
+//@             (direction != inbound ==> len(ch.peers.parent.peersByHostPort[hostPort].outboundConnections) == 1 &&
+//@                                       ch.peers.parent.peersByHostPort[hostPort].outboundConnections[0] == c &&
+//@                                       ch.peers.parent.peersByHostPort[hostPort].outboundConnections[len(ch.peers.parent.peersByHostPort[hostPort].outboundConnections) - 1] == c)
+//@   label active-connection-is-listed-last
+//@   ensures (c.state == connectionActive && direction == inbound ==> len(ch.peers.parent.peersByHostPort[hostPort].inboundConnections) >= 1 &&
+//@              ch.peers.parent.peersByHostPort[hostPort].inboundConnections[len(ch.peers.parent.peersByHostPort[hostPort].inboundConnections) - 1] == c) &&
+//@           (c.state == connectionActive && direction != inbound ==> len(ch.peers.parent.peersByHostPort[hostPort].outboundConnections) >= 1 &&
+//@              ch.peers.parent.peersByHostPort[hostPort].outboundConnections[len(ch.peers.parent.peersByHostPort[hostPort].outboundConnections) - 1] == c)
+//@   label inactive-connection-not-listed
+//@   ensures c.state != connectionActive && old(has(ch.peers.parent.peersByHostPort, hostPort)) ==>
+//@             c16SameIn(ch.peers.parent.peersByHostPort[hostPort]) && c16SameOut(ch.peers.parent.peersByHostPort[hostPort]) &&
+//@             c16nstatus(ch.peers.parent.peersByHostPort[hostPort]) == old(c16nstatus(ch.peers.parent.peersByHostPort[hostPort]))
+//@   label invariants-kept
+//@   ensures c16ChanOK(ch)
+//@   property C16
+
+// A connection that became active is tracked by the channel and listed under
+// the host:port its peer announced: the list for its direction grows by one,
+// the other list keeps its header, one status callback fires. (WHICH entry is
+// added, and that the old entries stay, is stated on addConnectionToPeer; here
+// the element-level facts are left out because this function's `modifies all`
+// -- Connection.close on the rejecting path -- makes the solver's array
+// reasoning on the merged element heap unstable.) If the channel no longer
+// accepts connections, or the connection already left the active state, it is
+// closed instead (that path runs arbitrary close callbacks: no claim).
+//@ pred c16GrewIn(p *Peer) := len(p.inboundConnections) == old(len(p.inboundConnections)) + 1 && p.outboundConnections == old(p.outboundConnections)
+//@ pred c16GrewOut(p *Peer) := len(p.outboundConnections) == old(len(p.outboundConnections)) + 1 && p.inboundConnections == old(p.inboundConnections)
+//@ func (ch *Channel) connectionActive(c *Connection, direction connectionDirection)
+//@   requires c16ChanOK(ch) && c.log != nil && c.remotePeerInfo.HostPort != ""
+//@   modifies all
+//@   label accepted-connection-tracked
+//@   ensures old(c.state == connectionActive && c16ChanOpen(ch)) ==> has(ch.mutable.conns, c.connID) && ch.mutable.conns[c.connID] == c &&
+//@             ch.peers == old(ch.peers) && ch.peers.parent == old(ch.peers.parent) && c.state == connectionActive
+//@   label listed-inbound-under-announced-hostport
+//@   ensures old(c.state == connectionActive && c16ChanOpen(ch)) && direction == inbound && old(has(ch.peers.parent.peersByHostPort, c.remotePeerInfo.HostPort)) ==>
+//@             ch.peers.parent.peersByHostPort[c.remotePeerInfo.HostPort] == old(ch.peers.parent.peersByHostPort[c.remotePeerInfo.HostPort]) && c16GrewIn(ch.peers.parent.peersByHostPort[c.remotePeerInfo.HostPort]) && c16nstatus(ch.peers.parent.peersByHostPort[c.remotePeerInfo.HostPort]) == old(c16nstatus(ch.peers.parent.peersByHostPort[c.remotePeerInfo.HostPort])) + 1
+//@   label listed-outbound-under-announced-hostport
+//@   ensures old(c.state == connectionActive && c16ChanOpen(ch)) && direction != inbound && old(has(ch.peers.parent.peersByHostPort, c.remotePeerInfo.HostPort)) ==>
+//@             ch.peers.parent.peersByHostPort[c.remotePeerInfo.HostPort] == old(ch.peers.parent.peersByHostPort[c.remotePeerInfo.HostPort]) && c16GrewOut(ch.peers.parent.peersByHostPort[c.remotePeerInfo.HostPort]) && c16nstatus(ch.peers.parent.peersByHostPort[c.remotePeerInfo.HostPort]) == old(c16nstatus(ch.peers.parent.peersByHostPort[c.remotePeerInfo.HostPort])) + 1
+//@   label new-peer-created-for-first-connection
+//@   ensures old(c.state == connectionActive && c16ChanOpen(ch)) && !old(has(ch.peers.parent.peersByHostPort, c.remotePeerInfo.HostPort)) ==>
+//@             has(ch.peers.parent.peersByHostPort, c.remotePeerInfo.HostPort) && fresh(ch.peers.parent.peersByHostPort[c.remotePeerInfo.HostPort]) && ch.peers.parent.peersByHostPort[c.remotePeerInfo.HostPort].hostPort == c.remotePeerInfo.HostPort &&
+//@             (direction == inbound ==> len(ch.peers.parent.peersByHostPort[c.remotePeerInfo.HostPort].inboundConnections) == 1 && len(ch.peers.parent.peersByHostPort[c.remotePeerInfo.HostPort].outboundConnections) == 0) &&
+//@             (direction != inbound ==> len(ch.peers.parent.peersByHostPort[c.remotePeerInfo.HostPort].outboundConnections) == 1 && len(ch.peers.parent.peersByHostPort[c.remotePeerInfo.HostPort].inboundConnections) == 0)
+//@   label invariants-kept
+//@   ensures old(c.state == connectionActive && c16ChanOpen(ch)) ==> c16ChanOK(ch)
+//@   property C16
+
+//@ func (ch *Channel) inboundConnectionActive(c *Connection)
+//@   requires c16ChanOK(ch) && c.log != nil && c.remotePeerInfo.HostPort != ""
+//@   modifies all
+//@   label inbound-connection-listed-inbound
+//@   ensures old(c.state == connectionActive && c16ChanOpen(ch)) && old(has(ch.peers.parent.peersByHostPort, c.remotePeerInfo.HostPort)) ==>
+//@             has(ch.mutable.conns, c.connID) && ch.mutable.conns[c.connID] == c && c16GrewIn(ch.peers.parent.peersByHostPort[c.remotePeerInfo.HostPort])
+//@   property C16
+
+//@ func (ch *Channel) outboundConnectionActive(c *Connection)
+//@   requires c16ChanOK(ch) && c.log != nil && c.remotePeerInfo.HostPort != ""
+//@   modifies all
+//@   label outbound-connection-listed-outbound
+//@   ensures old(c.state == connectionActive && c16ChanOpen(ch)) && old(has(ch.peers.parent.peersByHostPort, c.remotePeerInfo.HostPort)) ==>
+//@             has(ch.mutable.conns, c.connID) && ch.mutable.conns[c.connID] == c && c16GrewOut(ch.peers.parent.peersByHostPort[c.remotePeerInfo.HostPort])
+//@   property C16
+
+// Environment of Connect (assumed): the user-supplied dialer and the context
+// parameters do not touch tchannel state.
+//@ funcfield Channel.dialer(ctx context.Context, hostPort string) (nc net.Conn, err error)
+//@   modifies nothing
+//@ func getTChannelParams(ctx context.Context) (params *tchannelCtxParams)
+//@   pure
+//@   requires ctx != nil
+//@   modifies nothing
+//@   property C16
+
+// Out of scope for C16, assumed (TRUSTED): the init handshake creates the
+// connection and runs its OnActive callback (Channel.outboundConnectionActive,
+// see above); the channel's wiring (immutable after construction) stays intact.
+//@ func (ch *Channel) outboundHandshake(ctx context.Context, c net.Conn, outboundHP string, events connectionEvents) (conn *Connection, err error)
+//@   trusted
+//@   modifies all
+//@   ensures ch.peers == old(ch.peers) && ch.log == old(ch.log) && c16ChanOK(ch)
+//@   ensures conn != nil ==> conn.log != nil
+//@   property C16
+
+// "an outbound connection whose peer announces a different host:port is listed
+// under both": the handshake's OnActive callback lists it under the announced
+// host:port; Connect then also lists it under the host:port that was dialled
+// (addConnectionToPeer(hostPort, conn, outbound), whose contract says the
+// connection becomes the last outbound entry of that peer). Proved here: after
+// a mismatch the dialled peer exists and, for an active connection, its
+// OUTBOUND list is non-empty. The element-level clause "its last outbound entry
+// is conn" is valid (cvc5 proves it in 1 s on the engine's formula) but z3 is
+// unstable on it (array extensionality over the 7-way merged element heap), so
+// it is not claimed.
+// Precondition c16NoConnectTimeout: with a per-connect timeout the engine knows
+// nothing about the context returned by context.WithTimeout (it may be nil in
+// the model) and treats the deferred cancel() as an unmodelled func value.
+//@ pred c16NoConnectTimeout(ctx context.Context) := getTChannelParams(ctx) == nil || getTChannelParams(ctx).connectTimeout <= 0
+//@ func (ch *Channel) Connect(ctx context.Context, hostPort string) (conn *Connection, err error)
+//@   requires ctx != nil && c16ChanOK(ch) && hostPort != "" && ch.dialer != nil && c16NoConnectTimeout(ctx)
+//@   modifies all
+//@   label mismatch-peer-exists
+//@   ensures conn != nil && hostPort != conn.remotePeerInfo.HostPort ==> has(ch.peers.parent.peersByHostPort, hostPort)
+//@   label mismatch-list-nonempty
+//@   ensures conn != nil && hostPort != conn.remotePeerInfo.HostPort && conn.state == connectionActive ==>
+//@             len(ch.peers.parent.peersByHostPort[hostPort].outboundConnections) >= 1
+//@   label invariants-kept
+//@   ensures conn != nil ==> c16ChanOK(ch)
+//@   property C16
+
+//@ pred c16Disjoint(x []*Connection, y []*Connection) := arr(x) != arr(y) || arr(x) == 0 || arr(y) == 0
+// Lists of two different peers never share a backing array.
+//@ pred c16CrossSep(a *Peer, b *Peer) := c16Disjoint(a.inboundConnections, b.inboundConnections) && c16Disjoint(a.inboundConnections, b.outboundConnections) &&
+//@        c16Disjoint(a.outboundConnections, b.inboundConnections) && c16Disjoint(a.outboundConnections, b.outboundConnections)
+
+// A connection's close state changed: the channel forgets it iff it is fully
+// closed; if it is no longer active it is taken off the peer for the host:port
+// it announced AND (host:port mismatch) off the peer it was dialled under;
+// a status callback fires for every peer that lost it; a peer left without
+// connection or peer-list reference leaves the root list.
+// (P1 = root peer for c.remotePeerInfo.HostPort, P2 = root peer for c.outboundHP, both looked up at entry.)
+// The 2nd/3rd requires are model guards, not assumptions about the program: for
+// an ABSENT map entry the engine evaluates the `modifies` targets on the nil
+// object, whose (meaningless) list fields could alias a real backing array.
+//@ func (ch *Channel) connectionCloseStateChange(c *Connection)
+//@   requires c16ChanOK(ch) && c16ConnsNonNil(ch) && c.log != nil
+//@   requires c.outboundHP != c.remotePeerInfo.HostPort && has(ch.peers.parent.peersByHostPort, c.remotePeerInfo.HostPort) && has(ch.peers.parent.peersByHostPort, c.outboundHP) ==> c16CrossSep(ch.peers.parent.peersByHostPort[c.remotePeerInfo.HostPort], ch.peers.parent.peersByHostPort[c.outboundHP])
+//@   requires !has(ch.peers.parent.peersByHostPort, c.remotePeerInfo.HostPort) ==> ch.peers.parent.peersByHostPort[c.remotePeerInfo.HostPort].inboundConnections == nil && ch.peers.parent.peersByHostPort[c.remotePeerInfo.HostPort].outboundConnections == nil
+//@   requires !has(ch.peers.parent.peersByHostPort, c.outboundHP) ==> ch.peers.parent.peersByHostPort[c.outboundHP].inboundConnections == nil && ch.peers.parent.peersByHostPort[c.outboundHP].outboundConnections == nil
+//@   modifies ch.mutable.conns, ch.mutable.state, channelMap, ch.peers.parent.peersByHostPort
+//@            ch.peers.parent.peersByHostPort[c.remotePeerInfo.HostPort].inboundConnections, ch.peers.parent.peersByHostPort[c.remotePeerInfo.HostPort].outboundConnections, elems(ch.peers.parent.peersByHostPort[c.remotePeerInfo.HostPort].inboundConnections), elems(ch.peers.parent.peersByHostPort[c.remotePeerInfo.HostPort].outboundConnections), c16nstatus(ch.peers.parent.peersByHostPort[c.remotePeerInfo.HostPort]), c16rmidx(ch.peers.parent.peersByHostPort[c.remotePeerInfo.HostPort])
+//@            ch.peers.parent.peersByHostPort[c.outboundHP].inboundConnections, ch.peers.parent.peersByHostPort[c.outboundHP].outboundConnections, elems(ch.peers.parent.peersByHostPort[c.outboundHP].inboundConnections), elems(ch.peers.parent.peersByHostPort[c.outboundHP].outboundConnections), c16nstatus(ch.peers.parent.peersByHostPort[c.outboundHP]), c16rmidx(ch.peers.parent.peersByHostPort[c.outboundHP])
+//@   label closed-untracked
+//@   ensures c.state == connectionClosed ==> !has(ch.mutable.conns, c.connID)
+//@   label not-yet-closed-still-tracked
+//@   ensures c.state != connectionClosed ==> (has(ch.mutable.conns, c.connID) <==> old(has(ch.mutable.conns, c.connID))) &&
+//@             ch.mutable.conns[c.connID] == old(ch.mutable.conns[c.connID])
+//@   label other-connections-untouched
+//@   ensures forall k int :: k != c.connID ==> (has(ch.mutable.conns, k) <==> old(has(ch.mutable.conns, k))) &&
+//@             ch.mutable.conns[k] == old(ch.mutable.conns[k])
+//@   label active-connection-stays-listed-announced-peer
+//@   ensures c.state == connectionActive && old(has(ch.peers.parent.peersByHostPort, c.remotePeerInfo.HostPort)) ==> c16SameIn(old(ch.peers.parent.peersByHostPort[c.remotePeerInfo.HostPort])) && c16SameOut(old(ch.peers.parent.peersByHostPort[c.remotePeerInfo.HostPort])) && c16nstatus(old(ch.peers.parent.peersByHostPort[c.remotePeerInfo.HostPort])) == old(c16nstatus(ch.peers.parent.peersByHostPort[c.remotePeerInfo.HostPort]))
+//@   label unlisted-connection-changes-nothing-announced-peer
+//@   ensures old(has(ch.peers.parent.peersByHostPort, c.remotePeerInfo.HostPort)) && old(c16NotIn(ch.peers.parent.peersByHostPort[c.remotePeerInfo.HostPort].inboundConnections, c)) ==> c16SameIn(old(ch.peers.parent.peersByHostPort[c.remotePeerInfo.HostPort]))
+//@   ensures old(has(ch.peers.parent.peersByHostPort, c.remotePeerInfo.HostPort)) && old(c16NotIn(ch.peers.parent.peersByHostPort[c.remotePeerInfo.HostPort].outboundConnections, c)) ==> c16SameOut(old(ch.peers.parent.peersByHostPort[c.remotePeerInfo.HostPort]))
+//@   label delisted-inbound-announced-peer
+//@   ensures c.state != connectionActive && old(has(ch.peers.parent.peersByHostPort, c.remotePeerInfo.HostPort)) && old(c16Once(ch.peers.parent.peersByHostPort[c.remotePeerInfo.HostPort].inboundConnections, c)) && old(c16InList(ch.peers.parent.peersByHostPort[c.remotePeerInfo.HostPort].inboundConnections, c)) ==>
+//@             c16NotIn(old(ch.peers.parent.peersByHostPort[c.remotePeerInfo.HostPort]).inboundConnections, c)
+//@   label delisted-outbound-announced-peer
+//@   ensures c.state != connectionActive && old(has(ch.peers.parent.peersByHostPort, c.remotePeerInfo.HostPort)) && old(c16Once(ch.peers.parent.peersByHostPort[c.remotePeerInfo.HostPort].outboundConnections, c)) && old(c16NotIn(ch.peers.parent.peersByHostPort[c.remotePeerInfo.HostPort].inboundConnections, c)) &&
+//@             old(c16InList(ch.peers.parent.peersByHostPort[c.remotePeerInfo.HostPort].outboundConnections, c)) ==> c16NotIn(old(ch.peers.parent.peersByHostPort[c.remotePeerInfo.HostPort]).outboundConnections, c)
+//@   label status-callback-for-lost-connection-announced-peer
+//@   ensures c.state != connectionActive && old(has(ch.peers.parent.peersByHostPort, c.remotePeerInfo.HostPort)) && (old(c16InList(ch.peers.parent.peersByHostPort[c.remotePeerInfo.HostPort].inboundConnections, c)) || old(c16InList(ch.peers.parent.peersByHostPort[c.remotePeerInfo.HostPort].outboundConnections, c))) ==>
+//@             c16nstatus(old(ch.peers.parent.peersByHostPort[c.remotePeerInfo.HostPort])) == old(c16nstatus(ch.peers.parent.peersByHostPort[c.remotePeerInfo.HostPort])) + 1
+//@   label active-connection-stays-listed-dialled-peer
+//@   ensures c.state == connectionActive && c.outboundHP != "" && c.outboundHP != c.remotePeerInfo.HostPort && old(has(ch.peers.parent.peersByHostPort, c.outboundHP)) ==> c16SameIn(old(ch.peers.parent.peersByHostPort[c.outboundHP])) && c16SameOut(old(ch.peers.parent.peersByHostPort[c.outboundHP])) && c16nstatus(old(ch.peers.parent.peersByHostPort[c.outboundHP])) == old(c16nstatus(ch.peers.parent.peersByHostPort[c.outboundHP]))
+//@   label unlisted-connection-changes-nothing-dialled-peer
+//@   ensures c.outboundHP != "" && c.outboundHP != c.remotePeerInfo.HostPort && old(has(ch.peers.parent.peersByHostPort, c.outboundHP)) && old(c16NotIn(ch.peers.parent.peersByHostPort[c.outboundHP].inboundConnections, c)) ==> c16SameIn(old(ch.peers.parent.peersByHostPort[c.outboundHP]))
+//@   ensures c.outboundHP != "" && c.outboundHP != c.remotePeerInfo.HostPort && old(has(ch.peers.parent.peersByHostPort, c.outboundHP)) && old(c16NotIn(ch.peers.parent.peersByHostPort[c.outboundHP].outboundConnections, c)) ==> c16SameOut(old(ch.peers.parent.peersByHostPort[c.outboundHP]))
+//@   label delisted-inbound-dialled-peer
+//@   ensures c.state != connectionActive && c.outboundHP != "" && c.outboundHP != c.remotePeerInfo.HostPort && old(has(ch.peers.parent.peersByHostPort, c.outboundHP)) && old(c16Once(ch.peers.parent.peersByHostPort[c.outboundHP].inboundConnections, c)) && old(c16InList(ch.peers.parent.peersByHostPort[c.outboundHP].inboundConnections, c)) ==>
+//@             c16NotIn(old(ch.peers.parent.peersByHostPort[c.outboundHP]).inboundConnections, c)
+//@   label delisted-outbound-dialled-peer
+//@   ensures c.state != connectionActive && c.outboundHP != "" && c.outboundHP != c.remotePeerInfo.HostPort && old(has(ch.peers.parent.peersByHostPort, c.outboundHP)) && old(c16Once(ch.peers.parent.peersByHostPort[c.outboundHP].outboundConnections, c)) && old(c16NotIn(ch.peers.parent.peersByHostPort[c.outboundHP].inboundConnections, c)) &&
+//@             old(c16InList(ch.peers.parent.peersByHostPort[c.outboundHP].outboundConnections, c)) ==> c16NotIn(old(ch.peers.parent.peersByHostPort[c.outboundHP]).outboundConnections, c)
+//@   label status-callback-for-lost-connection-dialled-peer
+//@   ensures c.state != connectionActive && c.outboundHP != "" && c.outboundHP != c.remotePeerInfo.HostPort && old(has(ch.peers.parent.peersByHostPort, c.outboundHP)) && (old(c16InList(ch.peers.parent.peersByHostPort[c.outboundHP].inboundConnections, c)) || old(c16InList(ch.peers.parent.peersByHostPort[c.outboundHP].outboundConnections, c))) ==>
+//@             c16nstatus(old(ch.peers.parent.peersByHostPort[c.outboundHP])) == old(c16nstatus(ch.peers.parent.peersByHostPort[c.outboundHP])) + 1
+//@   label unreferenced-peer-leaves-root-list
+//@   ensures c.state != connectionActive && old(has(ch.peers.parent.peersByHostPort, c.remotePeerInfo.HostPort)) && (old(c16InList(ch.peers.parent.peersByHostPort[c.remotePeerInfo.HostPort].inboundConnections, c)) || old(c16InList(ch.peers.parent.peersByHostPort[c.remotePeerInfo.HostPort].outboundConnections, c))) &&
+//@             c16CanRemove(old(ch.peers.parent.peersByHostPort[c.remotePeerInfo.HostPort])) ==> !has(ch.peers.parent.peersByHostPort, c.remotePeerInfo.HostPort)
+//@   label referenced-peer-stays
+//@   ensures old(has(ch.peers.parent.peersByHostPort, c.remotePeerInfo.HostPort)) && !c16CanRemove(old(ch.peers.parent.peersByHostPort[c.remotePeerInfo.HostPort])) ==> has(ch.peers.parent.peersByHostPort, c.remotePeerInfo.HostPort)
+//@   label invariants-kept
+//@   ensures c16ChanOK(ch) && c16ConnsNonNil(ch)
+//@   property C16
